@@ -1,0 +1,22 @@
+//go:build verif
+
+package cursor
+
+import "context"
+
+// NewCursorVerif gives the verification harness (/verif, property C04) direct access to newCursor with an
+// arbitrary ItFactory.
+func NewCursorVerif(ctx context.Context, state State, itf ItFactory) (Cursor, error) {
+	c, err := newCursor(ctx, state, itf)
+	if err != nil {
+		return nil, err
+	}
+	return c, nil
+}
+
+// CloseCursorVerif closes a cursor made by NewCursorVerif (closes the journal iterators, releases the journals).
+func CloseCursorVerif(c Cursor) {
+	if cc, ok := c.(*crsr); ok {
+		cc.close()
+	}
+}
